@@ -2068,6 +2068,17 @@ theorem C11.execStats_err (props : JVal) (s : State) (e : Exc) (he : (execStats 
             exact statsTail_err he
         | _ => right; rfl
 
+/-- `options` and `get` look the watcher up and read its record: whatever they answer, the state is identical -/
+theorem C11.execOptions_reads (props : JVal) (s : State) : (execOptions props s).2 = s := by
+  unfold execOptions
+  rw [bind_run]
+  rcases getWatcherCmd_cases ((props.get? "name").getD .null) s with ⟨e, h⟩ | ⟨u, h⟩ <;> (rw [h]; rfl)
+
+theorem C11.execGet_reads (props : JVal) (s : State) : (execGet props s).2 = s := by
+  unfold execGet
+  rw [bind_run]
+  rcases getWatcherCmd_cases ((props.get? "name").getD .null) s with ⟨e, h⟩ | ⟨u, h⟩ <;> (rw [h]; rfl)
+
 theorem C11.execReadOnly_errNoop (c : String) (hc : c ≠ "stats") (props : JVal) (s : State) :
     ErrNoop (execReadOnly c props) s := by
   intro e he
@@ -2106,6 +2117,11 @@ theorem C11.execReadOnly_errNoop (c : String) (hc : c ≠ "stats") (props : JVal
   · cases he
   · rfl
   · exact (hc rfl).elim
+  · exact execOptions_reads props s
+  · exact execGet_reads props s
+  · rfl
+  · rfl
+  · rfl
   · cases he
 
 theorem C11.veq_readonly_all (c : String)
